@@ -429,6 +429,22 @@ impl<'a> View<'a> {
         self.actors[a].task_end.map(|(s, _)| s).unwrap_or(u64::MAX)
     }
 
+    /// A timer registered by actor `a` at `reg_stamp` certainly stays registered up to this stamp: the
+    /// first possible end of the actor, or the `stopped` callback that ends the registering incarnation
+    /// (a restart aborts the timers after that callback) - nothing at all for a timer registered inside
+    /// a `stopped` callback.
+    pub fn timer_valid_until(&self, a: ActorId, reg_stamp: u64) -> u64 {
+        let mut limit = self.alive_until(a);
+        for c in self.cbs.iter().filter(|c| c.actor == a && c.cb == Cb::Stopped) {
+            if c.enter > reg_stamp {
+                limit = limit.min(c.enter);
+            } else if c.exit.is_none_or(|x| x > reg_stamp) {
+                limit = limit.min(reg_stamp);
+            }
+        }
+        limit
+    }
+
     pub fn inv_of_msg(&self, id: u32) -> Vec<&InvRec> {
         self.invs.iter().filter(|i| i.msg == MsgRef::Client(id)).collect()
     }
